@@ -97,6 +97,7 @@ const (
 	ieOuterHdrRemoval  = 95
 	ieRecoveryTS       = 96
 	ieMeasInfo         = 100
+	ieLinkedURRID      = 82
 	ieURSEQN           = 104
 	ieFARID            = 108
 	ieQERID            = 109
